@@ -170,6 +170,10 @@ func init() {
 		return u
 	})
 	reg("time.Now", func(m *Machine, fr *frame, a []Value) Value {
+		if m.threadsOn() {
+			m.mainThread()
+			return timeStruct(fr.fn.Signature.Results().At(0).Type(), m.thr.vclock)
+		}
 		// a fixed instant: harnesses that need a clock inject their own
 		return zero(fr.fn.Signature.Results().At(0).Type())
 	})
@@ -278,16 +282,6 @@ func init() {
 	})
 }
 
-func init() {
-	// timers never fire by themselves: a harness that needs an expiry calls the handler
-	reg("time.NewTimer", func(m *Machine, fr *frame, a []Value) Value {
-		cell := new(Value)
-		*cell = zero(deref(fr.fn.Signature.Results().At(0).Type()))
-		return cell
-	})
-	reg("(*time.Timer).Stop", func(m *Machine, fr *frame, a []Value) Value { return Bool(false) })
-	reg("(*time.Timer).Reset", func(m *Machine, fr *frame, a []Value) Value { return Bool(false) })
-}
 
 func init() {
 	// errordumper: a reporting goroutine that only logs; Stop would wait for it
